@@ -47,6 +47,9 @@ func fragmentingFileNamer() fileNamer {
 
 func fragmentFileName(key string) string {
 	encoded := base64.RawURLEncoding.EncodeToString([]byte(key))
+	if encoded == "" {
+		return emptyKeyName
+	}
 	if len(encoded) <= 255 { // Common filesystem filename limit
 		return encoded
 	}
@@ -71,6 +74,11 @@ func fragmentFileName(key string) string {
 // dirMarker terminates the name of every directory of a fragmented key.
 const dirMarker = "="
 
+// emptyKeyName is the file name of the empty key, whose encoding is the empty
+// string and names no file. No other key gets this name: the last element of
+// a file name is never empty and never contains dirMarker.
+const emptyKeyName = dirMarker
+
 func fragmentingFileNameKeyer() fileNameKeyer {
 	return fileNameKeyerFunc(fragmentedFileNameToKey)
 }
@@ -83,6 +91,9 @@ var filepathSeparatorReplacer = strings.NewReplacer(
 )
 
 func fragmentedFileNameToKey(name string) (string, error) {
+	if name == emptyKeyName {
+		return "", nil
+	}
 	// Check if the name contains path separators (i.e., is fragmented)
 	if strings.ContainsRune(name, filepath.Separator) {
 		// Handle fragmented path
